@@ -4,7 +4,9 @@ import os, random, sqlite3
 from vlib import core, sqlfmt
 
 WORDS = ["aap", "Aap", "AAP", "noot", "Noot", "mies", "wim", "zus", "jet", "teun", "vuur", "gijs", "lam", "kees", "bok",
-         "weide", "does", "hok", "duif", "schapen", "", "a", "A", "a ", "a  ", "a\t", "b", "é", "É", "z", "Zeta", "zeta"]
+         "weide", "does", "hok", "duif", "schapen", "", "a", "A", "a ", "a  ", "a\t", "b", "é", "É", "z", "Zeta", "zeta",
+         # the ASCII characters around and between the two letter ranges: where folding to upper and folding to lower case order differently
+         "aa_b", "aaZb", "AAzb", "aa[b", "AA]b", "aa^b", "aa`b", "aa\\b", "aa@b", "aa{b", "aaab"]
 
 
 # the extremes of every integer serial type width (1, 2, 3, 4, 6, 8 bytes) and their neighbours
@@ -110,9 +112,19 @@ def norowid(wd, rng, page_size=512, rows=600, tag="wr"):
             continue
         seen.add((a, b))
         c.execute("INSERT INTO w VALUES(?,?,?,?)", ("x%d" % (n % 23), a, b, rand_value(rng, "nirt")))
+    # a primary key of large BLOB / TEXT values: the rows of the table AND the entries of its secondary index continue in
+    # overflow pages, and the nested primary key lookup of an indexed select compares key values taken from one
+    # overflowing entry against other overflowing entries
+    c.execute("CREATE TABLE wb(k BLOB, t TEXT, n INT, PRIMARY KEY(k, t)) WITHOUT ROWID")
+    c.execute("CREATE INDEX wb_n ON wb(n)")
+    for n in range(36):
+        k = bytes([7] * (page_size // 4)) + bytes([(n * 37 + j) % 256 for j in range(20 + (n % 5) * page_size // 8)])
+        c.execute("INSERT INTO wb VALUES(?,?,?)", (k, "t" * (n % 3) * (page_size // 3) + str(n), n % 9))
     c.execute("COMMIT")
     c.close()
     db = DB(path, page_size, tag)
+    db.tables["wb"] = dict(kind="norowid", cols=["k", "t", "n"], pk=[("k", "", False), ("t", "", False)])
+    db.indexes["wb_n"] = dict(table="wb", cols=[("n", "", False)])
     db.tables["w"] = dict(kind="norowid", cols=["x", "a", "b", "y"], pk=[("a", "", False), ("b", "", True)])
     db.indexes["w_y"] = dict(table="w", cols=[("y", "", False)])
     db.indexes["w_xa"] = dict(table="w", cols=[("x", "", False), ("a", "nocase", False)])
